@@ -101,4 +101,9 @@ META = {
             "text": "The port-message model is checked exhaustively with cancellation at every step (an aborted streamed item is an aborted chunked message); recorded histories of base and mpsc channels "
                     "with failing, oversized and cancelled items are checked by TLC for per-sender gap-free ordered prefix delivery, equality with the originals and suffix-only loss.",
             "note": "Bounds: see ChmuxData configs; real code with max_data 64/128 so that items straddle the buffered/streamed boundary. Trusted: TLC, harness, deterministic payload function."},
+    "C20": {"technique": "TLA+ model of handle copies, per-connection storage, attach-on-return, take and release (Handle.tla, safety + eventual release) + TLC trace validation of handle walks and lazy fetches (HandleTrace)",
+            "text": "TLC checks over all walks of three copies across three endpoints that a value is only ever obtained on the origin at its original type and is eventually released when no copy "
+                    "or no provider is left (attaching on any endpoint is found to break confinement); on the real code every access result along seeded walks is checked against the model's state "
+                    "(origin, type, taken, released), the destructor must run exactly once and by the end; fetched lazy values and blobs must equal what was provided or fail for a reason present in the scenario.",
+            "note": "Bounds: 3 copies x 3 endpoints in the model; real code: walks of 5-13 steps, lazy values up to about 4.5 kB over 1-3 hops. Trusted: TLC, harness tracer, logging destructor."},
 }
